@@ -178,7 +178,7 @@ class VariantRecordPool():
         if segments:
             def _filter(x):
                 for segment in segments:
-                    if segment.location.start < x.location.start < \
+                    if segment.location.start <= x.location.start < \
                             x.location.end < segment.location.end:
                         return True
                 return False
